@@ -514,6 +514,25 @@ def main(run):
                                 dict(dsc, expected_values=list(map(float, xw)))))
             else:
                 distinct.add(("model-layer", mname, cp.name))
+    # ... the same request (name, centre, width, points, sigmas, type) made for two models whose parameter of that name
+    # has DIFFERENT limits, the looser one first: each gets its own cut
+    stats["model_layer_same_request"] = 0
+    for pname, first, second in (("length", "cylinder", "elliptical_cylinder"), ("radius", "sphere", "flexible_cylinder_elliptical")):
+        centre, pd_, n_, ns_ = rng.choice([2.0, 3.0]), 0.5, rng.choice([9, 13]), 3.0
+        for mname in (first, second):
+            minfo = load_model_info(mname)
+            cp = [c_ for c_ in minfo.parameters.call_parameters if c_.name == pname][0]
+            lo_, hi_ = cp.limits
+            mesh_ = get_mesh(minfo, {pname: centre, pname + "_pd": pd_, pname + "_pd_n": n_, pname + "_pd_nsigma": ns_, pname + "_pd_type": "gaussian"}, dim="1d")
+            k_ = [c_.name for c_ in minfo.parameters.call_parameters].index(pname)
+            xv = np.asarray(mesh_[k_][1], "d")
+            xw, _ = weights.get_weights("gaussian", n_, pd_, ns_, centre, (lo_, hi_), cp.relative_pd)
+            evals += 1; stats["model_layer_same_request"] += 1
+            if len(xv) != len(xw) or (len(xv) and (xv.min() < lo_ or xv.max() > hi_)) or not np.allclose(xv, xw, rtol=1e-14, atol=0):
+                run.add(Finding("C02:model-layer:same-request", "%s.%s (limits [%r, %r]) asked for the distribution that %s.%s was asked for just before (centre %.3g, PD %.3g, %d points): values %s, the distribution cut at its own limits is %s" % (
+                    mname, pname, lo_, hi_, first, pname, centre, pd_, n_, np.round(xv, 4).tolist(), np.round(xw, 4).tolist()), dict(model=mname, parameter=pname, after=first, centre=centre, width=pd_, npts=n_)))
+            else:
+                distinct.add(("same-request", mname, pname))
     # ... and for the angles of oriented models in 2-D: the jitter is a deviation around zero with an absolute width, cut at
     # the angle's declared limits [-360, 360] whatever the view angle is
     stats["model_layer_angles"] = 0
